@@ -19,6 +19,19 @@ CLAIMS = {
         text="_StreamToTestRecord.status is proved per event, for every in-progress table and payload, to ignore events without a test id, to create or update exactly the record of (test id, route code) with the last status, latest tags, first/last timestamps and the chunk appended to the named attachment, and on a final status to call on_test exactly once with that record and remove it; stopTestRun is proved by a loop invariant (counting function over the ghost callback history) to report every remaining record exactly once and leave the table empty; StreamSummary._gather_test puts every reported test into exactly the list its status names and counts it, wasSuccessful is false iff errors/failures are non-empty; StreamToDict / StreamSummary / StreamToExtendedDecorator hand every call to their hook exactly once (dropping 'exists' in the latter).",
         note="Representation invariant of the in-progress table (distinct keys hold distinct records, a record's details dict is its own object) is a precondition, established by the contracts of startTestRun/status (@new allocates a new record); _make_content_type and _details_to_str are assumed total functions; on_test is an abstract callback (one ghost event per call, no raise); 'every history' follows by induction over events from the per-event contracts (written argument, DESIGN.md).",
     ),
+    "C08": dict(
+        text="Every method of ExtendedToOriginalDecorator is proved, for every capability vector of the wrapped target (which optional methods exist, which accept details=), to deliver exactly the one documented call (details= when accepted, else the synthetic string exception / reason / degraded outcome; unexpected success never becomes a pass), followed by the failfast stop step; MultiTestResult._dispatch and every public method deliver one identical call to each wrapped result in order (fold); TestResultDecorator forwards one identical call; Tagger.startTest sends startTest then tags; TestByTestResult calls on_test exactly once, at stopTest, with start/stop time, the tags current before the pop, and the status word and details of the outcome.",
+        note="Targets are abstract objects whose calls are ghost events; assumption: a target raises TypeError only because it does not accept details=, and for no other reason; _details_to_str / traceback rendering are assumed total text functions ('reason text contains the detail text' is not decided); MultiTestResult.startTestRun (failfast property dispatch during the inherited reset) and TestByTestResult.addSkip are not under contract; stacks of adapters compose by substitution of contracts (written argument).",
+    ),
+    "C12": dict(
+        text="Per-thread obligations of ThreadsafeForwardingResult are proved for every method, every buffered tag state and every point at which the target raises: O1 every call on the target except wasSuccessful is made while the semaphore is held (precondition of the target shape, discharged at every call site), O2 every method releases the semaphore on every normal and exceptional exit, O3 no acquire while held, O4 the target receives one contiguous block time(start) startTest time(now) [tags(global)] [tags(test)] outcome stopTest with that test's own start time and tag buffers, O5 the per-test buffer is emptied; _merge_tags and its algebra lemma are proved.",
+        category="proof",
+        note="'For all interleavings' is obtained from O1-O4 plus the ASSUMED mutual exclusion of threading.Semaphore(1) by a written composition argument (DESIGN.md C12), not by the solver; thread scheduling itself is outside contract-based verification; the inherited TestResult.startTestRun contract is applied to the subclass instance.",
+    ),
+    "C17": dict(
+        text="TagContext (copy-on-create, copy-on-read, change_tags algebra) and the tag methods of TestResult, ExtendedToOriginalDecorator, MultiTestResult, TestByTestResult and ThreadsafeForwardingResult are proved to implement a stack of tag sets: startTestRun installs an empty run-level context, startTest pushes a copy, stopTest pops only a context that startTest pushed, tags changes the top only, current_tags returns a fresh copy; ThreadsafeForwardingResult buffers tag changes per test / per run, replays them inside the test's block and forgets them at startTestRun; Tagger applies its tags inside the test.",
+        note="The statement 'current_tags equals added minus removed with test-local changes discarded' follows from the per-method stack contracts by induction over the history (written argument); a target has tags() iff it has current_tags (precondition; true of all flavours in the quantifier); PlaceHolder.run and ExtendedToStreamDecorator are covered under C09.",
+    ),
 }
 
 NOT_APPLICABLE = {p: NOT_BUILT for p in ["C%02d" % i for i in range(1, 21)]}
